@@ -18,6 +18,9 @@
   C26-NULL    tag and filters fall back to ``NullTranslations()`` and look the catalogue up under
               the configured ``translations`` name; the tag collapses whitespace with
               ``re_whitespace.sub(" ", msg.strip())`` only when ``trim_messages`` is set.
+  C26-UNDOUBLE on every path of ``_format_message`` (text arrives doubled) and ``format_message`` (doubles
+              itself) the returned text has been %-formatted exactly as often as its percent signs
+              were doubled.
 Trusted: gettext.NullTranslations (singular iff n == 1).
 """
 
@@ -36,13 +39,94 @@ F = "liquid.extra.filters.translate"
 T = "liquid.extra.tags.translate_tag"
 
 
+def _doubling_levels(fn: ast.AST, start: dict) -> tuple[int, list]:
+    """(returns of message text seen, [(return node, level != 0)]) over all paths of ``fn``.
+    Level of an expression: a tracked name's level; ``Markup(x)`` / ``str(x)`` keep it;
+    ``<re_percent>.sub(f, x)`` and ``x.replace("%", "%%")`` add one; ``x % y`` takes one off."""
+
+    def level(e, env):
+        if isinstance(e, ast.Name):
+            return env.get(e.id)
+        if isinstance(e, ast.Call):
+            fn_ = callee_name(e)
+            if fn_ in ("Markup", "str", "escape") and e.args:
+                return level(e.args[0], env)
+            if fn_ == "sub" and len(e.args) == 2 and "percent" in text(call_recv(e)):
+                l_ = level(e.args[1], env)
+                return None if l_ is None else l_ + 1
+            if fn_ == "replace" and len(e.args) == 2 and all(isinstance(a, ast.Constant) for a in e.args) and e.args[0].value == "%" and e.args[1].value == "%%":
+                l_ = level(call_recv(e), env)
+                return None if l_ is None else l_ + 1
+            return None
+        if isinstance(e, ast.BinOp) and isinstance(e.op, ast.Mod):
+            l_ = level(e.left, env)
+            return None if l_ is None else l_ - 1
+        if isinstance(e, ast.IfExp):
+            a, b = level(e.body, env), level(e.orelse, env)
+            return a if a == b else (max(x for x in (a, b) if x is not None) if (a is not None or b is not None) else None)
+        return None
+
+    n_ret = 0
+    bad = []
+
+    def block(body, envs):
+        for st in body:
+            if not envs:
+                break
+            nxt = []
+            for env in envs:
+                nxt += stmt(st, env)
+            envs = nxt
+        return envs
+
+    def stmt(st, env):
+        nonlocal n_ret
+        if isinstance(st, ast.Return):
+            l_ = level(st.value, env) if st.value is not None else None
+            if l_ is not None:
+                n_ret += 1
+                if l_ != 0:
+                    bad.append((st, l_))
+            return []
+        if isinstance(st, ast.Raise):
+            return []
+        if isinstance(st, ast.If):
+            return block(st.body, [dict(env)]) + (block(st.orelse, [dict(env)]) if st.orelse else [dict(env)])
+        if isinstance(st, (ast.With, ast.AsyncWith, ast.For, ast.AsyncFor, ast.While)):
+            out = block(st.body, [dict(env)])
+            return out + ([dict(env)] if isinstance(st, (ast.For, ast.AsyncFor, ast.While)) else [])
+        if isinstance(st, ast.Try):
+            out = block(st.body, [dict(env)])
+            for h in st.handlers:
+                out += block(h.body, [dict(env)])
+            return out
+        if isinstance(st, ast.Assign) and len(st.targets) == 1 and isinstance(st.targets[0], ast.Name):
+            env = dict(env)
+            l_ = level(st.value, env)
+            if l_ is None:
+                env.pop(st.targets[0].id, None)
+            else:
+                env[st.targets[0].id] = l_
+            return [env]
+        return [env]
+
+    block(fn.body, [dict(start)])
+    seen = set()
+    uniq = []
+    for node_, l_ in bad:
+        if (node_.lineno, l_) not in seen:
+            seen.add((node_.lineno, l_))
+            uniq.append((node_, l_))
+    return n_ret, uniq
+
+
 def _mod_sites(fn):
     return [n for n in ast.walk(fn) if isinstance(n, ast.BinOp) and isinstance(n.op, ast.Mod)]
 
 
 def run(repo: Repo) -> Result:
     res = Result(PID)
-    res.rules = ["C26-PERCENT", "C26-VARS", "C26-COUNT", "C26-NULL"]
+    res.rules = ["C26-PERCENT", "C26-VARS", "C26-COUNT", "C26-NULL", "C26-UNDOUBLE"]
     res.explanation = "taint rule: printf-formatting only of %-doubled message text; count tests by `is None`; null-translation fallbacks"
     res.assumptions = ["gettext.NullTranslations returns the singular iff n == 1"]
 
@@ -256,6 +340,26 @@ def run(repo: Repo) -> Result:
     tv = ltext(vb.node, local_names(vb.node))  # local names written `_`
     if "if self.trim_messages:" not in tv or "_ = self.re_whitespace.sub(' ', _.strip())" not in tv:
         res.add("C26-NULL", vb.qual, "whitespace", "the tag collapses whitespace runs with re_whitespace.sub(' ', msg.strip()) only when trim_messages is set", vb.file, vb.line)
+    # ---- C26-UNDOUBLE: doubled percent signs are halved again on every path ------------------------
+    # The tag's message text reaches ``_format_message`` with every literal ``%`` doubled (by
+    # ``validate_message_block``); the filters double inside ``format_message``.  The printf-style
+    # ``%`` halves them again.  So on *every* path the returned text has been formatted exactly as
+    # often as it was doubled ("doubling level" 0 at each return): an early return of the doubled
+    # text emits ``100%% free``.
+    for fq, start in ((f"{T}.TranslateNode._format_message", 1), (f"{F}.BaseTranslateFilter.format_message", 0)):
+        cq, mn = fq.rsplit(".", 1)
+        f_ = repo.own_method(cq, mn)
+        msg = [p_ for p_ in f_.params() if p_ not in ("self", "context")]
+        if not msg:
+            raise AnchorMissing(f"{fq}: message parameter not found")
+        n_ret, bad_ret = _doubling_levels(f_.node, {msg[0]: start})
+        res.ob(f"undouble:{fq}", max(1, n_ret))
+        if n_ret < 1:
+            raise AnchorMissing(f"{fq}: no return of message text found")
+        for node_, lvl in bad_ret:
+            what = "still doubled" if lvl > 0 else "formatted more often than doubled"
+            res.add("C26-UNDOUBLE", fq, f"return-level:{lvl}", f"{fq} can return message text whose literal percent signs are {what} (doubling level {lvl} at line {node_.lineno}): a message with a literal % and no placeholder comes out as '100%% free'" if lvl > 0 else f"{fq} returns text formatted with % more often than its percent signs were doubled (line {node_.lineno})", f_.file, node_.lineno)
+
     return res
 
 
